@@ -63,7 +63,7 @@ def real_sym(A, name, prefixes=()):
     return A.new("Symbol", name=name, type=A.ref("Real"), prefixes=VList(list(prefixes)))
 
 
-POT2, FLOW2 = ("T", "v"), ("Phi",)
+POT2, FLOW2 = ("T", "v"), ("Phi", "Q")      # the second class has several flow variables (the statement: "several potential and flow variables")
 
 
 def members(c, second=()):
